@@ -19,11 +19,11 @@ import (
 // target only affects this test binary.
 var _ = debug.SetGCPercent(800)
 
-// verifThorough reports whether VERIF_TIER=thorough was requested (default: quick).
-func verifThorough() bool { return os.Getenv("VERIF_TIER") == "thorough" }
+// verifJlsThorough reports whether VERIF_TIER=thorough was requested (default: quick).
+func verifJlsThorough() bool { return os.Getenv("VERIF_TIER") == "thorough" }
 
-// verifSeed returns VERIF_SEED (default 1).
-func verifSeed() uint64 {
+// verifJlsSeed returns VERIF_SEED (default 1).
+func verifJlsSeed() uint64 {
 	s, err := strconv.ParseInt(strings.TrimSpace(os.Getenv("VERIF_SEED")), 10, 64)
 	if err != nil {
 		return 1
@@ -31,19 +31,19 @@ func verifSeed() uint64 {
 	return uint64(s)
 }
 
-// verifRNG is a splitmix64 generator; deterministic for a given (seed, stream label).
-type verifRNG struct{ s uint64 }
+// verifJlsRNG is a splitmix64 generator; deterministic for a given (seed, stream label).
+type verifJlsRNG struct{ s uint64 }
 
-func verifNewRNG(label string) *verifRNG {
+func verifJlsNewRNG(label string) *verifJlsRNG {
 	h := uint64(1469598103934665603)
 	for i := 0; i < len(label); i++ {
 		h ^= uint64(label[i])
 		h *= 1099511628211
 	}
-	return &verifRNG{s: h ^ (verifSeed() * 0x9E3779B97F4A7C15)}
+	return &verifJlsRNG{s: h ^ (verifJlsSeed() * 0x9E3779B97F4A7C15)}
 }
 
-func (r *verifRNG) next() uint64 {
+func (r *verifJlsRNG) next() uint64 {
 	r.s += 0x9E3779B97F4A7C15
 	z := r.s
 	z = (z ^ (z >> 30)) * 0xBF58476D1CE4E5B9
@@ -52,15 +52,15 @@ func (r *verifRNG) next() uint64 {
 }
 
 // intn returns a value in [0, n).
-func (r *verifRNG) intn(n int) int {
+func (r *verifJlsRNG) intn(n int) int {
 	if n <= 1 {
 		return 0
 	}
 	return int(r.next() % uint64(n))
 }
 
-// verifReport accumulates the result of one bounded test and prints the protocol lines.
-type verifReport struct {
+// verifJlsReport accumulates the result of one bounded test and prints the protocol lines.
+type verifJlsReport struct {
 	t      *testing.T
 	name   string
 	domain string
@@ -70,12 +70,12 @@ type verifReport struct {
 	extra  []string // summary lines printed after the first failing cases (still within the 5-line cap)
 }
 
-func verifNewReport(t *testing.T, name, domain string) *verifReport {
-	return &verifReport{t: t, name: name, domain: strings.ReplaceAll(domain, "\"", "'")}
+func verifJlsNewReport(t *testing.T, name, domain string) *verifJlsReport {
+	return &verifJlsReport{t: t, name: name, domain: strings.ReplaceAll(domain, "\"", "'")}
 }
 
 // fail records one failing case (only the first few descriptions are kept).
-func (r *verifReport) fail(format string, args ...interface{}) {
+func (r *verifJlsReport) fail(format string, args ...interface{}) {
 	r.fails++
 	if len(r.lines) < 4 {
 		r.lines = append(r.lines, fmt.Sprintf(format, args...))
@@ -83,13 +83,13 @@ func (r *verifReport) fail(format string, args ...interface{}) {
 }
 
 // summary adds a grouped summary line (e.g. per-P failure counts).
-func (r *verifReport) summary(format string, args ...interface{}) {
+func (r *verifJlsReport) summary(format string, args ...interface{}) {
 	r.extra = append(r.extra, fmt.Sprintf(format, args...))
 }
 
 // flush prints BOUNDED first (govc attaches the BOUNDED-FAIL lines to an existing result),
 // then at most 5 BOUNDED-FAIL lines.
-func (r *verifReport) flush() {
+func (r *verifJlsReport) flush() {
 	fmt.Printf("BOUNDED name=%s cases=%d fails=%d domain=\"%s\"\n", r.name, r.cases, r.fails, r.domain)
 	if r.fails == 0 {
 		return
@@ -112,8 +112,8 @@ func (r *verifReport) flush() {
 	r.t.Fail()
 }
 
-// verifPack stores samples in the low P bits of 8-bit (P<=8) or 16-bit LE (P>8) containers.
-func verifPack(samples []int, p int) []byte {
+// verifJlsPack stores samples in the low P bits of 8-bit (P<=8) or 16-bit LE (P>8) containers.
+func verifJlsPack(samples []int, p int) []byte {
 	if p <= 8 {
 		b := make([]byte, len(samples))
 		for i, v := range samples {
@@ -129,8 +129,8 @@ func verifPack(samples []int, p int) []byte {
 	return b
 }
 
-// verifUnpack is the inverse of verifPack; ok=false if the length does not fit n samples.
-func verifUnpack(b []byte, p int, n int) ([]int, bool) {
+// verifJlsUnpack is the inverse of verifJlsPack; ok=false if the length does not fit n samples.
+func verifJlsUnpack(b []byte, p int, n int) ([]int, bool) {
 	if p <= 8 {
 		if len(b) != n {
 			return nil, false
@@ -151,8 +151,8 @@ func verifUnpack(b []byte, p int, n int) ([]int, bool) {
 	return s, true
 }
 
-// verifFmtSamples prints a (short) sample list for failure descriptions.
-func verifFmtSamples(s []int) string {
+// verifJlsFmtSamples prints a (short) sample list for failure descriptions.
+func verifJlsFmtSamples(s []int) string {
 	const maxShown = 48
 	var sb strings.Builder
 	sb.WriteByte('[')
@@ -170,8 +170,8 @@ func verifFmtSamples(s []int) string {
 	return sb.String()
 }
 
-// verifFirstDiff returns the index of the first differing sample, or -1.
-func verifFirstDiff(a, b []int) int {
+// verifJlsFirstDiff returns the index of the first differing sample, or -1.
+func verifJlsFirstDiff(a, b []int) int {
 	n := len(a)
 	if len(b) < n {
 		n = len(b)
@@ -187,8 +187,8 @@ func verifFirstDiff(a, b []int) int {
 	return -1
 }
 
-// verifContentKinds lists the image contents used by the structured round-trip tests.
-var verifContentKinds = []string{
+// verifJlsContentKinds lists the image contents used by the structured round-trip tests.
+var verifJlsContentKinds = []string{
 	"noise",     // seeded uniform noise over [0,MAXVAL]
 	"twolevel",  // random 0 / MAXVAL
 	"const",     // one constant value per component (0, MAXVAL or random)
@@ -199,9 +199,9 @@ var verifContentKinds = []string{
 	"halfrange", // values jumping by about RANGE/2 (error values at the modulo boundary)
 }
 
-// verifGenImage generates w*h*c interleaved samples of the given content kind, all in [0, 2^p-1].
+// verifJlsGenImage generates w*h*c interleaved samples of the given content kind, all in [0, 2^p-1].
 // `near` only shapes the near-lossless specific kinds; it is ignored by the others.
-func verifGenImage(kind string, w, h, c, p, near int, r *verifRNG) []int {
+func verifJlsGenImage(kind string, w, h, c, p, near int, r *verifJlsRNG) []int {
 	maxval := (1 << uint(p)) - 1
 	rng := maxval + 1
 	s := make([]int, w*h*c)
@@ -412,7 +412,7 @@ func verifGenImage(kind string, w, h, c, p, near int, r *verifRNG) []int {
 			s[i] = clampv(level[i%c] + r.intn(2*amp+1) - amp)
 		}
 	default:
-		panic("verifGenImage: unknown kind " + kind)
+		panic("verifJlsGenImage: unknown kind " + kind)
 	}
 	return s
 }
